@@ -143,6 +143,37 @@ def dsk6(ctx, c):
             lo = try_fold(lp.iter.slice.lower, ctx.env) if lp.iter.slice.lower is not None else 0
             if isinstance(hi, int) and isinstance(lo, int) and (lo > 0 or 0 <= hi < D.GRANULES):
                 partial = "positions %d..%d" % (lo, hi - 1)
+    # decided by folding the search on model allocation tables: the first granule of the fill order whose FAT byte is FF, an error when there is none
+    from ..consteval import Raised as _Rfg
+    fg_bad, fg_folded = None, True
+    if isinstance(order, list) and len(order) == D.GRANULES:
+        for free in (set(), {5}, {67}, {0, 40}, set(range(D.GRANULES)), {order[-1]}, {order[0], order[-1]}):
+            buf_ = _SparseBuf()
+            for g_ in range(D.GRANULES):
+                buf_[D.FAT_OFFSET + g_] = 0xFF if g_ in free else 0xC1
+            env0 = dict(ctx.env)
+            env0.update({"self.buffer": buf_, "self.granule_fill_order": list(order)})
+            want_ = next((g_ for g_ in order if g_ in free), None)
+            try:
+                got_ = _fold_disk_method(ctx, "find_empty_granule", env0, (), {})
+            except _Rfg as e_:
+                got_ = ("raises", e_.name)
+            except (NotConst, Exception):
+                fg_folded = False
+                break
+            if want_ is None and not (isinstance(got_, tuple) and got_[0] == "raises"):
+                fg_bad = fg_bad or ("with no granule free the search answers %r instead of failing" % (got_,))
+            elif want_ is not None and got_ != want_:
+                fg_bad = fg_bad or ("with granules %s free the search answers %r (first free in fill order: %d)" % (sorted(free)[:5], got_, want_))
+    else:
+        fg_folded = False
+    if fg_folded:
+        if fg_bad:
+            c.finding("find_empty_granule", fg_bad[:110], "find_empty_granule folded on model allocation tables: %s" % fg_bad, where)
+        else:
+            c.ok("find_empty_granule", "first free granule of the fill order, an error when none is free (7 model tables)", where)
+            c.ok("find_empty_granule:exhaustion", "raises when nothing is free", where)
+        return
     if partial:
         c.finding("find_empty_granule", "searches only %s of the fill order" % partial,
                   "find_empty_granule looks at %s of the 68-entry fill order: a free granule outside that window is never handed out and the disk reports full early" % partial, where)
@@ -156,12 +187,16 @@ def dsk6(ctx, c):
         rets = [U(n.value) for n in ast.walk(fn.node) if isinstance(n, ast.Return) and n.value is not None]
         if any("granule_in_use" in U(n) for n in ast.walk(fn.node)):
             c.undecided("find_empty_granule", "allocation-loop-shape-unknown", str(rets), where)
+        elif any(isinstance(x, ast.Call) and U(x.func).startswith("self.") for x in ast.walk(fn.node)):
+            c.undecided("find_empty_granule", "search-delegated-to-a-helper", str(rets)[:80], where)
         else:
             c.finding("find_empty_granule", "returns a granule without testing that it is free",
                       "find_empty_granule hands out a granule without a dominating `not granule_in_use(g)` test", where)
     last = body_without_doc(fn.node)[-1]
     if isinstance(last, ast.Raise):
         c.ok("find_empty_granule:exhaustion", "raises when nothing is free", where)
+    elif any(isinstance(x, ast.Call) and U(x.func).startswith("self.") and not U(x.func).endswith("granule_in_use") for x in ast.walk(fn.node)):
+        c.undecided("find_empty_granule:exhaustion", "search-delegated-to-a-helper", "", where)
     elif not any(isinstance(x, ast.Raise) and "fill_order" not in U(x) and "68" not in U(x) for x in ast.walk(fn.node)):
         c.finding("find_empty_granule:exhaustion", "no raise for an exhausted disk",
                   "find_empty_granule must fail with an error when no granule is free (the caller would otherwise use its return value as a granule)", where)
@@ -226,7 +261,7 @@ def dsk7(ctx, c):
         except _NC2 as e:
             c.undecided("granule_in_use:range", "guard-not-foldable", str(e), where)
     # a new image is all FF: every granule free, every directory slot never used
-    init = repo.method(CLS, "__init__", inherited=False)
+    init = repo.method(CLS, "__init__")
     fills = [n for n in ast.walk(init.node) if isinstance(n, ast.Assign) and U(n.targets[0]) == "self.buffer" and isinstance(n.value, ast.BinOp) and isinstance(n.value.op, ast.Mult)]
     for n in fills:
         lst, cnt = (n.value.left, n.value.right) if isinstance(n.value.left, ast.List) else (n.value.right, n.value.left)
@@ -276,7 +311,11 @@ def dsk7(ctx, c):
                         mval = try_fold(st.value, ctx.env)
                         marked = (idx, mval)
                         order.append("mark")
-                if marked is None:
+                if marked is None and gvar is None:
+                    # the granule is not bound to a local of its own (appended directly, marked through list[-1] ...): DSK-8 folds add_file on model disks and
+                    # reports a loop that hands out one granule twice
+                    c.undecided("add_file:allocation", "allocation-loop-shape-not-recognised", "decided by DSK-8 add_file:allocation:fit", wa)
+                elif marked is None:
                     c.finding("add_file:allocation", "allocated granule not marked before the next search",
                               "add_file allocates granules in a loop without marking each one in the FAT, so find_empty_granule returns the same granule again", wa)
                 else:
@@ -760,13 +799,16 @@ def dsk3(ctx, c):
             bufp, ptrp = params[0], params[1]
             from .enc import make_resolver
             from ..inline import flatten as _fl
-            it = Interp(_fl(repo, f, depth=2), consts={**ctx.env, **ctx.self_env(cls)}, sub_bases=(bufp,), resolver=make_resolver(repo, f),
+            it = Interp(_fl(repo, f, depth=2), consts={**ctx.env, **ctx.self_env(cls)}, sub_bases=(bufp,), resolver=make_resolver(repo, f), alias_paths=True,
                         init_env={ptrp: Opq("P"), "self.length": Const(length) if length is not None else Opq("self.length")})
             outs = [o for o in it.run() if o.kind == "return"]
             # return value = P + length
             rv = {repr(o.value) for o in outs}
             want_rv = "Lin(P+%d)" % sp["length"] if sp["length"] else "<P>"
-            c.check(rv == {want_rv}, "%s.%s:advance" % (cls, meth), "returns pointer + %d" % sp["length"], "returns %s" % sorted(rv),
+            if any(re.search(r"len\(|<\?!|\(<", x) for x in rv):
+                c.undecided("%s.%s:advance" % (cls, meth), "returned-pointer-not-affine", str(sorted(rv))[:100], w)
+            else:
+              c.check(rv == {want_rv}, "%s.%s:advance" % (cls, meth), "returns pointer + %d" % sp["length"], "returns %s" % sorted(rv),
                     "%s.%s returns %s, it must return the pointer advanced by the %d bytes of the block" % (cls, meth, sorted(rv), sp["length"]), w)
             if meth == "write":
                 for o in outs:
@@ -783,7 +825,8 @@ def dsk3(ctx, c):
                                 "%s.write stores %s as flag byte, the format has %02X" % (cls, st.get(0), sp["flag"]), w)
                     for fld, (hi, lo) in sp["fields"].items():
                         good = st.get(hi) == "<self.%s.high_byte()>" % fld and st.get(lo) == "<self.%s.low_byte()>" % fld
-                        if not good and not (("high_byte" in str(st.get(hi)) or "low_byte" in str(st.get(hi)) or "Const" in str(st.get(hi)) or "self." in str(st.get(hi)))):
+                        local_recv = any(re.fullmatch(r"<[a-z_]\w*\.(high|low)_byte\(\)>", str(st.get(k_)) or "") for k_ in (hi, lo))
+                        if not good and (local_recv or not (("high_byte" in str(st.get(hi)) or "low_byte" in str(st.get(hi)) or "Const" in str(st.get(hi)) or "self." in str(st.get(hi))))):
                             c.undecided("%s.write:%s" % (cls, fld), "value-not-recognised", "%s / %s" % (st.get(hi), st.get(lo)), w)
                             continue
                         c.check(good, "%s.write:%s" % (cls, fld), "@%d,%d hi,lo" % (hi, lo), "@%d=%s @%d=%s" % (hi, st.get(hi), lo, st.get(lo)),
@@ -796,7 +839,8 @@ def dsk3(ctx, c):
             else:
                 # reader: flag tests and field reads
                 flags = []
-                for nn in ast.walk(f.node):
+                rflat_ = _fl(repo, f, depth=2)
+                for nn in ast.walk(rflat_):
                     if isinstance(nn, ast.If) and nn.body and isinstance(nn.body[-1], ast.Raise) and isinstance(nn.test, ast.Compare) and isinstance(nn.test.left, ast.Subscript):
                         idx = U(nn.test.left.slice).replace(ptrp, "").replace(" ", "").lstrip("+") or "0"
                         try:
@@ -804,7 +848,8 @@ def dsk3(ctx, c):
                         except ValueError:
                             idx = None
                         flags.append((idx, type(nn.test.ops[0]).__name__, try_fold(nn.test.comparators[0], {**ctx.env, **ctx.self_env(cls)})))
-                if any(None in fl for fl in flags) or (sp["flag"] is not None and not flags and any(isinstance(x, ast.Raise) for x in ast.walk(f.node))):
+                opaque_calls = [x for x in ast.walk(rflat_) if isinstance(x, ast.Call) and (U(x.func).startswith(("self.", "cls.")) or (isinstance(x.func, ast.Name) and x.func.id in f.module.funcs))]
+                if any(None in fl for fl in flags) or (sp["flag"] is not None and not flags and (opaque_calls or any(isinstance(x, (ast.Raise, ast.For, ast.While)) for x in ast.walk(rflat_)))):
                     c.undecided("%s.read:flags" % cls, "flag-tests-not-recognised", str(flags), w)
                     flags = None
                 if flags is not None and sp["flag"] is not None:
